@@ -136,9 +136,11 @@ class Variant:
 
 
 class HalfFloat:
-    """(integral value) / 2.0 — exact in f64; only floor() of it is interpreted"""
-    def __init__(self, t):
-        self.t = t
+    """(integral value) / c for a small positive integer constant c: only floor() / ceil() of it are interpreted.  The f64 quotient of two
+    integers below 2^53 rounds to the nearest double of the true quotient, which can only reach an integer when the true quotient is one
+    (|t| < 2^31, c < 2^20 here), so floor and ceil are those of the exact rational."""
+    def __init__(self, t, c=2):
+        self.t, self.c = t, c
 
 
 class IFloat:
@@ -607,6 +609,8 @@ class Ctx:
                     v = v[1]
                 elif isinstance(v, Opaque):
                     v = Opaque("deref:" + v.name)
+                elif isinstance(v, Variant):
+                    pass        # a modelled smart-pointer target (e.g. the content of a RefCell): already the value
                 else:
                     raise Unsupported("deref of non-reference")
             else:
@@ -664,8 +668,20 @@ class Ctx:
                                 "AddWithOverflow", "SubWithOverflow", "MulWithOverflow", "Not", "Neg", "AddUnchecked", "SubUnchecked"):
             op = m.group(1)
             ops = [self.operand(fr, a) for a in split_top(m.group(2))]
-            if op == "Div" and len(ops) == 2 and isinstance(ops[0], IFloat) and isinstance(ops[1], Opaque) and ops[1].name == "float:2":
-                return HalfFloat(ops[0].t)
+            def _fc(o):
+                if isinstance(o, Opaque) and o.name.startswith("float:"):
+                    return int(o.name[6:])
+                return None
+            if len(ops) == 2 and isinstance(ops[0], IFloat):
+                c = _fc(ops[1])
+                if op == "Div" and c is not None and c > 0:
+                    return HalfFloat(ops[0].t, c)
+                if op in ("Add", "Sub") and c is not None:
+                    return IFloat(arith("+" if op == "Add" else "-", ops[0].t, I(c)))
+                if op in ("Add", "Sub") and isinstance(ops[1], IFloat):
+                    return IFloat(arith("+" if op == "Add" else "-", ops[0].t, ops[1].t))
+                if op == "Mul" and c is not None:
+                    return IFloat(arith("*", ops[0].t, I(c)))
             if any(not isinstance(o, T) for o in ops):
                 if all(isinstance(o, (T, Opaque, IFloat)) for o in ops) and any(isinstance(o, (Opaque, IFloat)) for o in ops):
                     if op in ("Eq", "Ne", "Lt", "Le", "Gt", "Ge"):
